@@ -3,7 +3,7 @@
    integer arithmetic); it is compared bit for bit with the implementation on every run.  Statements only;
    proofs are in Proofs/Fl64_proofs.v, Sort_by_proofs.v, Relabel_check_proofs.v, Relabel_ungroup_proofs.v,
    Relabel_total_proofs.v, Fl64_mono_proofs.v, Relabel_plain_proofs.v, Relabel_plain2_proofs.v,
-   Relabel_renumber_proofs.v.
+   Relabel_renumber_proofs.v, Relabel_guard_proofs.v.
 
    [Spec orig keys adj ins] is the property's postcondition for one call (Model/Relabel.v): adjustments name
    existing rows once each with finite values; existing rows keep their order (strictly where they were
@@ -16,7 +16,7 @@ Require Import Grist.Lib.Fl64 Grist.Model.Relabel.
 Require Import Grist.Proofs.Fl64_proofs Grist.Proofs.Fl64_mono_proofs Grist.Proofs.Relabel_check_proofs
                Grist.Proofs.Relabel_ungroup_proofs Grist.Proofs.Relabel_total_proofs
                Grist.Proofs.Relabel_plain_proofs Grist.Proofs.Relabel_plain2_proofs
-               Grist.Proofs.Relabel_renumber_proofs.
+               Grist.Proofs.Relabel_renumber_proofs Grist.Proofs.Relabel_guard_proofs.
 Open Scope Z_scope.
 
 (* ---- 1. the certified checker: for ALL inputs and ALL candidate results, acceptance implies the
@@ -81,12 +81,7 @@ Definition C20_total_stmt : Prop :=
   forall orig keys, Pre orig keys ->
     exists adj ins, prepare_inserts_model orig keys = Ok (adj, ins) /\ Spec orig keys adj ins.
 
-(* It does not hold for the unchanged code (known findings, replayed by the harness on the implementation): *)
-(* (a) crowding among subnormals: two adjacent subnormal positions, one request between them ->
-       AssertionError in _find_sparse_enough_range (range_around_float returns an empty range) *)
-Theorem C20_refuted_subnormal_crowding :
-  prepare_inserts_model [FFin false 1; FFin false 2] [FFin false 2] = Err 3.
-Proof. vm_compute. reflexivity. Qed.
+(* It does not hold for the code (known findings, replayed by the harness on the implementation): *)
 (* (b) last position >= 2^53, append: begin + count + 1 == begin -> AssertionError in prep_inserts_at_index *)
 Theorem C20_refuted_append_beyond_2p53 :
   prepare_inserts_model [decode 4845873199050653696] [FInf false] = Err 1.        (* [2^53], [inf] *)
@@ -105,43 +100,59 @@ Proof.
 Qed.
 Theorem C20_total_refuted : ~ C20_total_stmt.
 Proof.
-  intros H. destruct (H [FFin false 1; FFin false 2] [FFin false 2]) as (adj & ins & Heq & _).
+  intros H. destruct (H [decode 4845873199050653696] [FInf false]) as (adj & ins & Heq & _).
   - apply check_pre_sound. vm_compute. reflexivity.
-  - rewrite C20_refuted_subnormal_crowding in Heq. discriminate.
+  - rewrite C20_refuted_append_beyond_2p53 in Heq. discriminate.
 Qed.
 
-(* (e) Ordinary positions are not safe either: two adjacent doubles in the middle of an aligned block of 512
-       doubles (1 + 256 ulp and its successor), one request between them.  The renumbering itself succeeds, but
-       the final "assert is_valid_range(begin, ..., end)" of prep_inserts_at_index still uses the neighbours'
-       keys from BEFORE the adjustment, and the new key of the inserted row happens to equal the old begin. *)
-Theorem C20_refuted_final_assert_stale_endpoints :
-  prepare_inserts_model [decode 4607182418800017664; decode 4607182418800017665] [decode 4607182418800017665] = Err 2.
-Proof. vm_compute. reflexivity. Qed.
+(* Two former counterexamples, repaired in /repo (fix commits 0fbacc5: range_around_float handles subnormals;
+   488eb97: the final assert of prep_inserts_at_index uses the neighbours' adjusted keys).  On the model of the
+   repaired code they are regression examples: a result is returned and the certified checker accepts it.
+   (a) two adjacent subnormal positions, one request between them (was: AssertionError, empty range) *)
+Example C20_regression_subnormal_crowding :
+  let orig := [FFin false 1; FFin false 2] in let keys := [FFin false 2] in
+  exists adj ins, prepare_inserts_model orig keys = Ok (adj, ins) /\ adj <> [] /\ check orig keys adj ins = true.
+Proof. cbv zeta. eexists. eexists. split; [vm_compute; reflexivity|]. split; [discriminate | vm_compute; reflexivity]. Qed.
+(* (e) 1 + 256 ulp and its successor (the middle of an aligned block of 512 doubles), one request between them
+   (was: AssertionError from the final assert, which compared with the neighbours' keys from before the
+   adjustment) *)
+Example C20_regression_final_assert :
+  let orig := [decode 4607182418800017664; decode 4607182418800017665] in let keys := [decode 4607182418800017665] in
+  exists adj ins, prepare_inserts_model orig keys = Ok (adj, ins) /\ adj <> [] /\ check orig keys adj ins = true.
+Proof. cbv zeta. eexists. eexists. split; [vm_compute; reflexivity|]. split; [discriminate | vm_compute; reflexivity]. Qed.
 
-(* So even the restriction to "ordinary" existing positions (normal doubles below 2^53) and small tables does not
-   make the total statement true: *)
-Definition ordinary (x : fl) : Prop := exists u, x = FFin false u /\ 2 ^ 52 <= u < 2 ^ 1127.
+(* What should hold, and for which no counterexample is known on the repaired code (about 130 000 targeted and
+   random inputs with valid positions, every offset of an aligned block of 1024 doubles at 7 anchors, plus the
+   harness runs): existing positions valid -- positive, finite, below 2^53, subnormals included -- and fewer
+   than 2^20 rows in all.  It is NOT proved in general: on the partial renumbering path
+   (_find_sparse_enough_range / _adjust_range: doubling ranges, thresholds 1.14^i / 1.3^i) neither the absence of
+   exceptions nor Spec is established by proof; every input the harness explores gets its own kernel-checked
+   certificate through C20_checker_sound instead. *)
+Definition valid_position (x : fl) : Prop := exists u, x = FFin false u /\ 0 < u < 2 ^ 1127.
 Definition C20_total_restricted_stmt : Prop :=
-  forall orig keys, Pre orig keys -> Forall ordinary orig -> lenZ orig + lenZ keys < 2 ^ 20 ->
+  forall orig keys, Pre orig keys -> Forall valid_position orig -> Forall wf_fl orig -> lenZ orig + lenZ keys < 2 ^ 20 ->
     exists adj ins, prepare_inserts_model orig keys = Ok (adj, ins) /\ Spec orig keys adj ins.
-Theorem C20_total_restricted_refuted : ~ C20_total_restricted_stmt.
-Proof.
-  intros H.
-  destruct (H [decode 4607182418800017664; decode 4607182418800017665] [decode 4607182418800017665])
-    as (adj & ins & Heq & _).
-  - apply check_pre_sound. vm_compute. reflexivity.
-  - repeat constructor; eexists; (split; [vm_compute; reflexivity|]); split; vm_compute; congruence.
-  - vm_compute. reflexivity.
-  - rewrite C20_refuted_final_assert_stale_endpoints in Heq. discriminate.
-Qed.
-
-(* What remains open, as a statement: on the partial renumbering path (_find_sparse_enough_range /
-   _adjust_range: doubling ranges, thresholds 1.14^i / 1.3^i) the model is NOT proved to return a result that
-   satisfies Spec whenever it returns one.  Every input the harness explores gets its own kernel-checked
-   certificate through C20_checker_sound instead; absence of exceptions is refuted above. *)
+(* its two halves *)
+Definition C20_no_exception_stmt : Prop :=
+  forall orig keys, Pre orig keys -> Forall valid_position orig -> Forall wf_fl orig -> lenZ orig + lenZ keys < 2 ^ 20 ->
+    exists adj ins, prepare_inserts_model orig keys = Ok (adj, ins).
 Definition C20_partial_correctness_stmt : Prop :=
-  forall orig keys adj ins, Pre orig keys -> Forall ordinary orig ->
+  forall orig keys adj ins, Pre orig keys -> Forall valid_position orig -> Forall wf_fl orig ->
     prepare_inserts_model orig keys = Ok (adj, ins) -> Spec orig keys adj ins.
+
+(* A first piece of C20_no_exception_stmt on the partial renumbering path: the first assertion of
+   prep_inserts_at_index ("assert self.count_range(begin, end) > 0", error 1) cannot fire for a group whose
+   neighbours are doubles 0 <= begin < end while no existing row has been adjusted yet in the call (work list
+   = earlier new keys, all below begin): the count new keys just added are all counted.  Still missing for the
+   whole statement: a range is always found (lower bounds for the float powers 1.14^i, 1.3^i against the
+   number of keys in the doubled ranges), evenly spread keys in it are distinct, and the invariants of
+   _adj_bisect_key_left / count_range once rows have been adjusted. *)
+Theorem C20_first_assert_guard_partial : forall orig prev sb ub ue c,
+  let b := FFin sb ub in let e := FFin false ue in
+  wf_fl b -> 0 <= ue < UOVER -> 0 <= ford b -> flt b e = true -> 1 <= c /\ c + 1 < 2 ^ 53 ->
+  (forall x, In x prev -> Flt x b) -> StronglySorted Fle prev ->
+  c <= count_range orig (mkwl [] (sl_update prev (get_range b e c))) b e.
+Proof. exact first_assert_guard. Qed.
 
 (* Proved: total correctness (no exception AND Spec) on the paths that do not renumber partially.
    (i) Appending: the last existing position (0.0 for an empty table) is an integer b,
